@@ -379,9 +379,9 @@ def check_C14(tier, seed):
     return res.finish()
 
 
-def generic_record_validate(prop, res, sub, args, trace_module, consts, label, shards=16, features=(), variant="native"):
+def generic_record_validate(prop, res, sub, args, trace_module, consts, label, shards=16, features=(), variant="native", profile="release"):
     """run a `vh <sub>` recorder and validate its shards with a Trace_* spec"""
-    exe = build_harness(features=features, variant=variant)
+    exe = build_harness(features=features, variant=variant, profile=profile)
     out = fresh(prop, label)
     rc, o, err = run_vh(exe, [sub, "--out", os.path.join(out, "trace"), "--shards", shards] + args, inflight=os.path.join(out, "inflight"))
     if rc != 0:
@@ -428,7 +428,7 @@ def check_C09(tier, seed):
 
 def dom_behaviours(tier):
     d = wdir("beh")
-    k = 3 if tier == QUICK else 3
+    k = 3 if tier == QUICK else 4
     path = os.path.join(d, "dom_%d.ndjson" % k)
     stats_p = path + ".stats"
     src = [os.path.join(vlib.TLA, f) for f in ("Dom.tla", "MC_Dom.tla", "MC_Dom.cfg")]
@@ -466,6 +466,21 @@ def dom_replay(prop, tier, seed, res, classes, extra=(), label="dom"):
     return summ
 
 
+def big_replay(prop, tier, res):
+    """scale concretisation (dom.rs: big): the repeated part of a short behaviour iterated past 2^16 / 2^24 members or bytes, in its own process"""
+    exe = build_harness()
+    out = fresh(prop, "big")
+    rc, o, err = run_vh(exe, ["big", "--out", out, "--tier", tier], timeout=3600)
+    if rc != 0:
+        res.add_mismatch({"suite": "big", "class": "crash", "rc": rc, "why": "process died (rc %s) in the scale cases: %s" % (rc, err[-300:])})
+        return
+    summ = json.load(open(os.path.join(out, "summary.0.json")))
+    for m in summ["mismatches"]:
+        res.add_mismatch(m)
+    res.coverage["evaluations"] += summ["cases"]
+    res.coverage.setdefault("replay", {})["big"] = {"cases": summ["cases"], "counts": summ["counts"]}
+
+
 def check_C15(tier, seed):
     res = Result("C15", tier, seed, "model_checking")
     res.coverage["rule"] = ("TLC explores every history of length 3 over {parse (2 documents), new, build, clone of any subtree, drop, take, 15 array operations, 10 object operations, "
@@ -487,6 +502,8 @@ def check_C16(tier, seed):
     # "from any thread": the same histories with every step on a fresh OS thread (values created, mutated and dropped on different threads),
     # then every remaining value and a clone of it read in full and dropped by concurrent threads released by a barrier
     dom_replay("C16", tier, seed, res, ("arena", "leak", "crash", "dom", "panic"), extra=["--threads", 1], label="dom_threads")
+    # every node finds its arena through index / length fields of fixed width: containers and strings past 2^16 and 2^24
+    big_replay("C16", tier, res)
     # values own their data: entry points that overwrite the input buffer before reading the value (incl. the
     # embedded / stream / raw-number paths) are judged by the denotation of the text
     jt_record_validate("C16", tier, seed + 16, res, 3000 if tier == QUICK else 100000, checks=("value", "panic"))
@@ -755,6 +772,9 @@ def check_C05(tier, seed):
                             "TLC checks: output = SerText(Denotes(output)) (well-formed, compact, exact escaping), Denotes(output) matches the value's data model, all writers agree, "
                             "pretty = PrettyText, failing sink => Err and the bytes written are a prefix")
     generic_record_validate("C05", res, "sr-record", ["--seed", seed, "--n", 3000 if tier == QUICK else 150000, "--mode", "ser"], "Trace_Ser", {}, "ser")
+    # the same recorder in a plain optimised build (no debug assertions): the string escaper reads its source directly there
+    # (cfg(not(debug_assertions))), so the strings ending against the inaccessible page exercise its page-crossing logic
+    generic_record_validate("C05", res, "sr-record", ["--seed", seed + 5, "--n", 2500 if tier == QUICK else 150000, "--mode", "ser"], "Trace_Ser", {}, "ser_fast", profile="fast")
     return res.finish()
 
 
